@@ -409,8 +409,8 @@ def len_lower_bound(fn, bi):
             continue
         if c['kind'] == 'Is:is_empty' and c.get('truth') is False:
             facts_.append((norm(a), 'ge', 1))
-        elif a[0] == 'call' and short(a[1]) == 'len' and a[2]:
-            coll = norm(a[2][0])
+        elif (a[0] == 'call' and short(a[1]) == 'len' and a[2]) or a[0] == 'len':
+            coll = norm(a[2][0]) if a[0] == 'call' else norm(a[1])      # `.len()` or the length read by a slice pattern
             if c['kind'] == 'value':
                 t = fn.blocks[c['switch']]['term']
                 listed = sorted(int(v) for v, _ in t['targets'] if v.isdigit())
@@ -521,3 +521,32 @@ def same_player(a0, a1, f0, f1):
             ok = all(str(p[2]) == k0 and str(p[3]) == k1 for p in pairs) and via(a0, k0) and via(a1, k1)
             return (True if ok else None), 'array of (player p %s, player p %s) pairs: %s' % (f1, f0, ok)
     return None, 'iteration shape not recognised'
+
+
+def is_num_actions(e):
+    """`info.num_actions()` or the same thing spelled out, `info.actions.len()`"""
+    e = strip_refs(e)
+    if e[0] == 'call' and short(e[1]) == 'num_actions':
+        return True
+    inner = None
+    if e[0] == 'call' and short(e[1]) == 'len' and e[2]:
+        inner = strip_refs(e[2][0])
+    elif e[0] == 'len':
+        inner = strip_refs(e[1])
+    while inner is not None and inner[0] in ('cast', 'deref', 'ref'):
+        inner = strip_refs(inner[1])
+    while inner is not None and inner[0] == 'field' and inner[2] in ('0', 'pointer'):
+        inner = strip_refs(inner[1])       # Box<[A]> internals
+    return inner is not None and inner[0] == 'field' and inner[2] == 'actions'
+
+
+def maps_num_actions(crate, cf):
+    """is cf (closure or fn item) `|info| info.num_actions()` / `PlayerInfoset::num_actions` / `|info| info.actions.len()`?"""
+    if cf is None:
+        return False
+    if short(cf.name) == 'num_actions' or any(short(p) == 'num_actions' for _, _, p in cf.calls()):
+        return True
+    try:
+        return is_num_actions(ret_expr(cf))
+    except Exception:
+        return False
